@@ -30,7 +30,20 @@ CFG = {
             "352, 420, ASCII and 2/3/4-byte fills, sorted first / in the middle / last, several long names, only "
             "long names), both orders, every limit 1..n+1 and absent: a page that ends on a name whose token "
             "cannot be issued must be answered with an explicit error status (the tree answers 500) after every "
-            "earlier page was delivered intact - an early end without token is a violation. Observed per page: item keys, token presence, "
+            "earlier page was delivered intact - an early end without token is a violation. large-scope slice (deterministic, tags large:*): collections of 255/256/257 items (integer keys "
+            "incl. keys ending at u64::MAX, and generated string keys) x limits {absent, 1, 255, 256, 257, 10000, "
+            "2^32-1} judged page by page; 9999/10000/10001 items x {absent, 10000, 2^32-1}, 10001 string keys, and "
+            "limit 1 over 2049 integer / 1025 string keys (2050 / 1026 requests in one scan); thorough adds 20001, "
+            "65535, 65536, 65537 items x {absent, 10000, 2^32-1} x both orders, 65537 string keys, and limit 1 over "
+            "65537 items (65538 requests) in both orders for integer and string keys. Scans of this size are "
+            "SUMMARISED by the harness (tag large:summarised): run-length encoding of (page size, token present), "
+            "number of items, a 64-bit rolling hash of the whole item sequence, token bytes of the first two and "
+            "last two tokenful pages; the judge computes the same summary from the model and evaluates the property "
+            "on it (item sequence compared up to a collision of the 64-bit hash); the model is evaluated with "
+            "Pagination.fast_scan, proved equal to full_scan (C15_fast_scan_is_scan). Generated string keys are "
+            "prefix + zero-padded rank (NPad). page_max_nitems / page_default_nitems are constants of server.rs and "
+            "cannot be configured, so default 1/255/256 and maximum 1/65536 cannot be run; the theorems cover every "
+            "1 <= default <= max. Observed per page: item keys, token presence, "
             "token bytes (all pages of scans up to 12 pages, else the first three and last two). Non-trivial: every "
             "scan; distinct by (order, keys, limit).",
     "exhaustive_note": "small scope is complete: all sizes 0..40 x all limits 1..42 (and absent) x both orders, "
